@@ -7,6 +7,7 @@ import NmfuModel.Cli
 import NmfuModel.Lit
 import NmfuModel.SrcParse
 import NmfuModel.EquivF
+import NmfuModel.Ambig
 import NmfuModel.Generated.Flags
 open Nmfu
 
@@ -301,6 +302,21 @@ def cmdRefine (args : List String) : String :=
     | _, .error e => s!"error parseMachine {e}"
   | _ => "error bad-args"
 
+/-- one-byte-lookahead ambiguity of a source program under the reference semantics -/
+def cmdAmbig (args : List String) : String :=
+  match args with
+  | [lim, ps] =>
+    match parseProg ps with
+    | .ok p =>
+      let r := Src.exploreAmbig p {} lim.toNat!
+      match r.found with
+      | some (w, x, why) => s!"ambiguous word={symStr w} sym={x} visited={r.visited} why={why}"
+      | none =>
+        if r.outOfFuel then s!"fuel visited={r.visited}"
+        else s!"clean visited={r.visited} cert={Src.ambigCertOK p {} r.cfgs}"
+    | .error e => s!"error parseProg {e}"
+  | _ => "error bad-args"
+
 def handle (line : String) : String :=
   match splitBar line with
   | "equiv" :: args => cmdEquiv args
@@ -312,6 +328,7 @@ def handle (line : String) : String :=
   | "cli" :: args => cmdCli args
   | "lit" :: args => cmdLit args
   | "refine" :: args => cmdRefine args
+  | "ambig" :: args => cmdAmbig args
   | "ping" :: _ => "pong"
   | _ => "error unknown-command"
 
